@@ -1223,8 +1223,14 @@ static int do_sweep(const std::string &prop, int tier, int64_t runs, int workers
     printf("SUMMARY property=%s runs=%lld nontrivial_distinct=%lld traces=%lld checks=%lld sim_s=%.1f wall_s=%.1f rerun=%lld mismatches=%lld classes=%zu fresh=%zu\n",
            prop.c_str(), (long long)g.evals, (long long)g.distinct_plans.size(), (long long)g.traces.size(), (long long)g.checks, g.sim_seconds, wall,
            (long long)g.rechecked, (long long)g.mismatches, g.classes.size(), fresh.size());
-    for (auto &kv : g.classes)
-        printf("  class %s  runs=%lld first=%lld  %s\n", kv.first.c_str(), (long long)kv.second.count, (long long)kv.second.idx, kv.second.first.detail.substr(0, 200).c_str());
+    for (auto &kv : g.classes) {
+        bool is_fresh = false;
+        for (auto &f : fresh)
+            if (f.second.cls() == kv.first)
+                is_fresh = true;
+        printf("  class %s  %s runs=%lld first=%lld  %s\n", kv.first.c_str(), is_fresh ? "NEW" : "listed", (long long)kv.second.count, (long long)kv.second.idx,
+               kv.second.first.detail.substr(0, 200).c_str());
+    }
     if (g.mismatches) {
         harness_fault = true;
         harness_msg += " nondeterminism:";
